@@ -106,6 +106,9 @@ TmplBase ==
           TI |-> << O("incr", "q", ""), O("inc", "TP", ""), O("ren", "TP", ""), O("incr", "q", ""), O("cycle", "g", "") >>,
           TP |-> << O("date", "x", "f"), O("incr", "q", ""), O("cycle", "g", "") >>,
           TX |-> << O("pure", "inherit", "") >>,
+          \* an extending template that defines an inline snippet outside its blocks and renders it inside one (experimental tag, registered
+          \* explicitly): finding the blocks of a template walks its nodes WITH the live render context
+          TZ |-> << O("pure", "snippet", "") >>,
           TY |-> << O("pure", "with", ""), O("pure", "tablerow", ""), O("pure", "case", ""), O("pure", "loops", ""), O("out", "a", "") >>,
           TT |-> << O("pure", "ternary", ""), O("incr", "q", "") >>,
           \* TG is asked of the loader by the caller, env.get_template("TG", globals = {gl: 5}); TIG includes and renders it
@@ -134,7 +137,7 @@ PoolFull == << J("TD", "dU", "E0"), J("TD", "dP", "E0"), J("TD", "dM", "E0"), J(
                J("TW", "dU", "E0"), J("TR", "dU", "E0"), J("TW", "dP", "EI"), J("TR", "dP", "EI"),
                J("TA", "dU", "E0"), J("TS", "dU", "E0"), J("TA", "dI", "E1"),
                J("TI", "dU", "E0"), J("TI", "dP", "E0"), J("TI", "dM", "EA"),
-               J("TX", "dU", "E0"), J("TY", "dU", "E0"),
+               J("TX", "dU", "E0"), J("TY", "dU", "E0"), J("TZ", "dU", "E0"),
                J("TT", "dU", "EF"), J("TT", "dU", "E0"), J("TD", "dP", "ED"), J("TW", "dU", "ED"),
                J("TG", "dU", "E0"), J("TIG", "dU", "E0"), J("TG", "dU", "E1"), J("TIG", "dP", "E1") >>
 PoolCore == << J("TD", "dU", "E0"), J("TD", "dP", "E0"), J("TD", "dM", "EA"),
@@ -142,7 +145,7 @@ PoolCore == << J("TD", "dU", "E0"), J("TD", "dP", "E0"), J("TD", "dM", "EA"),
                J("TW", "dU", "E0"), J("TR", "dU", "E0"),
                J("TA", "dU", "E0"), J("TS", "dU", "E0"),
                J("TI", "dP", "E0"), J("TT", "dU", "EF"), J("TT", "dU", "E0"),
-               J("TG", "dU", "E0"), J("TIG", "dU", "E0") >>
+               J("TG", "dU", "E0"), J("TIG", "dU", "E0"), J("TZ", "dU", "E0") >>
 (* the jobs that go through liquid.Template() and its process-wide memo of implicit environments, and one that does not *)
 PoolImpl == << J("TD", "dP", "EI"), J("TD", "dM", "EJ"), J("TW", "dP", "EI"), J("TR", "dP", "EI"), J("TD", "dM", "EA") >>
 PoolSweep == SetToSeq({ J(id, "dU", "E0") : id \in SweepIds })
